@@ -197,7 +197,10 @@ Firsts ==
     ES([k |-> "Func", name |-> "f", params |-> <<"p", "q">>, body |-> <<>>]),
     [k |-> "Block", body |-> <<ES(MkInt(1))>>], [k |-> "Block", body |-> <<>>],
     [k |-> "Let", name |-> "x", e |-> [k |-> "If", c |-> A, th |-> <<ES(MkInt(1))>>, hasel |-> TRUE, el |-> <<ES(MkInt(2))>>]],
-    [k |-> "Let", name |-> "g", e |-> [k |-> "Func", name |-> "", params |-> <<"p">>, body |-> <<ES(Ident("p"))>>]] }
+    [k |-> "Let", name |-> "g", e |-> [k |-> "Func", name |-> "", params |-> <<"p">>, body |-> <<ES(Ident("p"))>>]],
+    \* a function literal called on the spot, at the start of a statement
+    ES(Call1([k |-> "Func", name |-> "f", params |-> <<"p">>, body |-> <<ES(Ident("p"))>>], A)),
+    ES(Infix("+", Call1([k |-> "Func", name |-> "f", params |-> <<"p">>, body |-> <<ES(Ident("p"))>>], A), B)) }
   \cup {ES(If3(w)) : w \in BOOLEAN}
   \cup {ES(Nested(i, o)) : i, o \in BOOLEAN}
 Seconds ==
